@@ -234,8 +234,13 @@ class PopenExecutor(concurrent.futures.Executor):
 
         # submitting new futures after join() would be bad,
         # so we make this internal and only call it from shutdown()
+        # snapshot under the lock: a submit() that passed the shutdown check before the flag was set
+        # holds the lock until its future is registered and started, and must be waited for as well
+        with self._lock:
+            futures = list(self._futures)
+
         with contextlib.suppress(concurrent.futures.CancelledError):
-            for future in list(self._futures):
+            for future in futures:
                 future.result()
 
 
